@@ -11,6 +11,39 @@ LEVEL_NOTE = 'Trusted: clang AST. Not covered: the numeric clause reciprocal(d) 
 EXPLANATION = 'RCP-NOOP evaluated on the IMUL_RCP decoder block and on h_IMUL_RCP of each JIT back-end; RCP-USE lists which reciprocal routine each engine calls.'
 
 
+def rule_rcp_pure(ctx, R):
+    """[RCP-PURE] the reciprocal is a function of its argument alone"""
+    import irq
+    from core import AnalysisBroken
+    R.rule('RCP-PURE', 'randomx_reciprocal (and randomx_reciprocal_fast where it is C code) is a pure function of its argument: no store, no load from mutable global state, no call other than compiler intrinsics '
+           '(a memo or any other state would make the multiplier depend on history and on other threads)', min_instances=1)
+    M = irq.Module(ctx.ir())
+    mutable = {g['name'] for g in M.m['globals'] if not g['constant']}
+    n = 0
+    for name in ('randomx_reciprocal', 'randomx_reciprocal_fast'):
+        f = M.fn.get(name)
+        if f is None or not f['defined']:
+            continue
+        n += 1
+        bad = []
+        for i, addr, kind in M.write_sites(f):
+            roots = M.roots(f, addr)
+            if not all(r[0] == 'alloca' for r in roots):
+                bad.append('%s to %s' % (kind, sorted(set(r[1] if len(r) > 1 else r[0] for r in roots))))
+        for i in M.insts(f):
+            if i['op'] == 'load':
+                for r in M.roots(f, i['ops'][0]):
+                    if r[0] == 'g' and r[1] in mutable:
+                        bad.append('load from mutable global %s' % r[1])
+            if i['op'] in ('call', 'invoke'):
+                c = i.get('callee')
+                if c is None or not (c.startswith('llvm.') or c in ('__assert_fail',)):
+                    bad.append('call %s' % (c or 'indirect'))
+        R.check(not bad, name, 'src/reciprocal.c', expected='no memory effects', found=bad or 'pure')
+    if n == 0:
+        raise AnalysisBroken('RCP-PURE: randomx_reciprocal not defined in the IR')
+
+
 def run(ctx, R):
     F = astq.Facts(ctx, 'K0')
     R.saw(config='K0')
@@ -22,3 +55,4 @@ def run(ctx, R):
     jit.rule_rcp(ctx, R, 'rv64')
     jit.rule_lw_sib(ctx, R, 'a64', F)
     jit.rule_lw_sib(ctx, R, 'rv64', F)
+    rule_rcp_pure(ctx, R)
